@@ -97,3 +97,30 @@ Proof.
   repeat match goal with H : _ \/ _ |- _ => destruct H | H : False |- _ => destruct H end; subst a b;
   (eapply (caseless_apart _ _ s); [| | | |exact Ea|exact Eb]; vm_compute; try reflexivity; discriminate).
 Qed.
+
+(** [EnumValueParser::parse_ref] returns the first matching element of [value_variants()] (C04's [enum_parse]: its index [k]
+    among the kept variants); the derive model reads the stored string again with [from_str] ([parse_scalar]).  The two agree:
+    the [k]-th kept variant IS the declared variant the typed reading answers. *)
+Lemma find_index_find {A B} (g : A -> B) (f : B -> bool) : forall l j k,
+  find_index f (map g l) j = Some k ->
+  exists x, find (fun a => f (g a)) l = Some x /\ nth_error l (k - j) = Some x /\ (j <= k)%nat.
+Proof.
+  induction l as [|a l IH]; intros j k H; cbn [map find_index] in H; [discriminate H|].
+  cbn [find]. destruct (f (g a)) eqn:E.
+  - inversion H; subst k. exists a. rewrite Nat.sub_diag. repeat split; auto.
+  - destruct (IH (S j) k H) as [x [F [N L]]]. exists x. split; [exact F|]. split; [|lia].
+    replace (k - j)%nat with (S (k - S j)) by lia. exact N.
+Qed.
+
+Theorem enum_parse_ref_variant e ic s k :
+  enum_parse clap_unicode ic (map fst (enum_pvs e)) s = VOk k ->
+  exists i pv, nth_error (lits e) k = Some (i, pv) /\ parse_scalar (TEnum e) ic s = Some (SvEnum i).
+Proof.
+  unfold enum_parse. destruct (utf8_valid s) eqn:U; cbn [negb]; [|discriminate].
+  rewrite (enum_pvs_lits e 0). fold (lits e).
+  destruct (find_index (fun pv => pv_matches clap_unicode pv s ic) (map snd (lits e)) 0) as [k'|] eqn:F; [|discriminate].
+  intros H; inversion H; subst k'.
+  destruct (find_index_find snd (fun pv => pv_matches clap_unicode pv s ic) (lits e) 0 k F) as [[i pv] [Ff [N _]]].
+  rewrite Nat.sub_0_r in N. exists i, pv. split; [exact N|].
+  cbn [parse_scalar]. rewrite U. cbn [negb]. unfold ve_from_str. change uni with clap_unicode. rewrite Ff. reflexivity.
+Qed.
